@@ -59,8 +59,43 @@ PROPS = {
                      "the environment part (SingleJobShopGraphEnv.step for a finished job / ineligible machine) is decided "
                      "by the bounded run only (numpy/gymnasium objects around the dispatcher call)"],
     ),
-    "C10": dict(level="exploration", functions=[], lemmas=[], tierb=True),
-    "C13": dict(level="exploration", functions=[], lemmas=[], tierb=True),
+    "C10": dict(
+        level="proof",
+        functions=CORE_SCHEDULE + CORE_DISPATCH + [
+            "Dispatcher.subscribe", "Dispatcher.unsubscribe", "DispatcherObserver.__init__",
+            "Dispatcher.create_or_get_observer", "HistoryObserver.__init__", "HistoryObserver.update",
+            "HistoryObserver.reset"],
+        lemmas=[],
+        tierb=True,
+        trusted=[T_OBSERVERS, T_NUM_MACHINES,
+                 "abstract contract of an observer class held in a variable (`observer(self, **kwargs)` in "
+                 "create_or_get_observer): DispatcherObserver.__init__'s contract lifted to an unknown subclass",
+                 "`condition` is a pure predicate on the observer"],
+        assumptions=[A_VALID, A_REGIONS,
+                     "the ghost notification trace records the update()/reset() calls the dispatcher code makes (ghost "
+                     "statements anchored after `subscriber.update(scheduled_operation)` / `subscriber.reset()`); "
+                     "`history = dispatch sequence` follows from HistoryObserver.update's post-condition along that trace "
+                     "(composition over the history is exercised by the bounded run)",
+                     "arguments have (a subclass of) their annotated class"],
+    ),
+    "C13": dict(
+        level="proof",
+        functions=["RewardObserver.__init__", "RewardObserver.last_reward", "RewardObserver.reset",
+                   "MakespanReward.__init__", "MakespanReward.reset", "MakespanReward.update", "IdleTimeReward.update",
+                   "Schedule.makespan", "ScheduledOperation.end_time", "ScheduledOperation.machine_id",
+                   "Schedule.schedule", "DispatcherObserver.__init__", "Dispatcher.dispatch",
+                   "Dispatcher._update_tracking_attributes"],
+        lemmas=["dispatch-makespan-step", "dispatch-idle-step"],
+        tierb=True,
+        trusted=[T_OBSERVERS],
+        assumptions=[A_VALID, A_REGIONS,
+                     "proved per dispatch: each update appends exactly one reward r <= 0 with r = -(objective after - "
+                     "objective before) (method contracts + step lemmas over dispatch's contract); the sum over a whole "
+                     "history telescopes because every accepted dispatch calls update exactly once in the post-state (C10, "
+                     "proved) -- that composition step itself is not mechanised and is exercised by the bounded run",
+                     "`step returns the reward emitted for that step` (SingleJobShopGraphEnv.step) is decided by the "
+                     "bounded run (C18 harness); RewardObserver.last_reward is proved to return the last emitted reward"],
+    ),
     "C03": dict(level="exploration", functions=[], lemmas=[], tierb=True),
     "C04": dict(level="exploration", functions=[], lemmas=[], tierb=True),
     "C11": dict(level="exploration", functions=[], lemmas=[], tierb=True),
